@@ -22,7 +22,9 @@ RULE = ("Part 'result': one Result type (SUM int / dyadic / general float, "
         "not the left comb.  Part 'sets': SimulationResults with 1..4 named "
         "results, 1..3 parameter variations, per variation 1..8 repetition "
         "sets grouped into chunks (receiver = empty set or first repetition) "
-        "merged by a drawn plan, then append_all_results over variations; "
+        "merged by a drawn plan, then append_all_results over variations and "
+        "0..2 late repetition sets merged into the appended object (they "
+        "must reach the last variation only); "
         "non-trivial = some variation with >=3 repetitions in >=2 chunks.  "
         "Part 'combine': combine_simulation_results of two result sets with "
         "1..2 unpacked parameters whose values overlap in none/some/all; "
